@@ -11,6 +11,7 @@ import (
 	"github.com/acarl005/stripansi"
 	"github.com/mattn/go-runewidth"
 	"github.com/vbauerster/mpb/v8/decor"
+	"github.com/vbauerster/mpb/v8/internal"
 )
 
 // Bar represents a progress bar.
@@ -414,6 +415,7 @@ func (b *Bar) serve(bs *bState) {
 			decoratorsOnShutdown(bs.decorGroups[1])
 			// bar can be aborted by canceling parent ctx without calling b.Abort
 			bs.aborted = !bs.completed()
+			internal.Gate("bar:exit", b)
 			b.bs = bs
 			close(b.bsOk)
 			b.container.bwg.Done()
@@ -445,6 +447,7 @@ func (b *Bar) render(tw int) {
 		}
 		b.frameCh <- frame
 	}
+	internal.Gate("rg:start", b)
 	select {
 	case b.operateState <- fn:
 	case <-b.bsOk:
@@ -454,6 +457,7 @@ func (b *Bar) render(tw int) {
 
 func (b *Bar) tryEarlyRefresh(renderReq chan<- time.Time) {
 	var otherRunning int
+	internal.Gate("er:start", b)
 	b.container.traverseBars(func(bar *Bar) bool {
 		if b != bar && bar.IsRunning() {
 			otherRunning++
@@ -463,6 +467,7 @@ func (b *Bar) tryEarlyRefresh(renderReq chan<- time.Time) {
 	})
 	if otherRunning == 0 {
 		for {
+			internal.Gate("er:pump", b)
 			select {
 			case renderReq <- time.Now():
 			case <-b.ctx.Done():
@@ -559,6 +564,7 @@ func (s *bState) triggerCompletion(b *Bar) {
 		// will wait for one hour. This call helps to avoid unnecessary waiting.
 		go b.tryEarlyRefresh(s.renderReq)
 	} else {
+		internal.Gate("bar:cancel", b)
 		b.cancel()
 	}
 }
